@@ -35,14 +35,14 @@ PROPS = {
                  'the serving thread starts as root (precondition of every handler); rules R50-R56 (scoped_cred! expanded, libc::syscall(SYS_x) -> sys::x, scope-exit drops of the credential guards made explicit, pointer arguments named by their owner)'],
     ),
     'C06': dict(
-        vx_units=['vfs', 'pt', 'inodes'], kx=[], rx=['pt'],
+        vx_units=['vfs', 'pt', 'inodes', 'ptops'], kx=[], rx=['pt'],
         # the `..`-at-the-export-root rewrite relies on the export root being known as inode 1 only: a root that can be forgotten can be re-registered under
         # another number and then be walked out of (seed C06-c)
         alias=[r'^C08\.forget\.root'],
         design_ref='DESIGN.md section 5, C06',
         not_covered=[
             'symlink / hard-link / rename-of-directory-in-use semantics: kernel behaviour behind libc calls (what is proved is which FLAGS reach openat and which inode TYPES are re-opened, with openat / InodeData::open_file as capability-guarded externals)',
-            'the name checks at the twelve call sites inside passthrough mutators (functions made of syscalls; no partial extraction)',
+            'the name checks at the call sites inside the passthrough mutators ARE covered since unit ptops: every mkdirat / mknodat / symlinkat / linkat / unlinkat / renameat2 / creating openat needs `gated(name)`, which only validate_path_component returning Ok provides ([C06.gate.*]); lookup\'s own slash check is in unit pt; the order "before any backend is touched" holds because the gated call is the first host call that names the object',
             'PassthroughFs::do_lookup ".." -> "." rewrite at the export root',
         ],
         trusted=['T3 CStr modelled as a NUL-free byte sequence (axiom_cstr_no_nul); <[u8]>::contains by assume_specification; byte-string constants CURRENT_DIR_CSTR/PARENT_DIR_CSTR by R11',
